@@ -933,19 +933,24 @@ bool qlisttbl_save(qlisttbl_t *tbl, const char *filepath, char sepchar,
     qio_printf(fd, -1, "# %s %s\n", filepath, gmtstr);
     free(gmtstr);
 
+    bool ok = true;
     qlisttbl_lock(tbl);
     qlisttbl_obj_t *obj;
     for (obj = tbl->first; obj; obj = obj->next) {
         char *encval;
         if (encode == true) encval = qurl_encode(obj->data, obj->size);
         else encval = obj->data;
-        qio_printf(fd, -1, "%s%c%s\n", obj->name, sepchar, encval);
+        // an entry that could not be encoded or written makes the save fail
+        if (encval == NULL
+            || qio_printf(fd, -1, "%s%c%s\n", obj->name, sepchar, encval) < 0) {
+            ok = false;
+        }
         if (encode == true) free(encval);
     }
     qlisttbl_unlock(tbl);
 
     close(fd);
-    return true;
+    return ok;
 }
 
 /**
